@@ -1,5 +1,8 @@
 import runner as R
 from props import *
+import C04_more, C04_gen
+
+LEAN_MODULES = ['C04'] + C04_more.LEAN_MODULES_EXTRA + C04_gen.LEAN_MODULES
 
 MANIFEST = dict(
     text="One Lean theorem per operator machine: for all parameters, raw scripts and source modes, delivered trace = the documented list function (Spec.*) of the source's values and ending; "
@@ -12,6 +15,11 @@ MANIFEST = dict(
 def check(ctx):
     rows = R.run_kind(ctx, 'ops')
     R.compare(ctx, rows, proj_values, 'C04 delivered values and terminal', nontrivial=nontrivial_op)
-    return dict(rule='every catalogue operator x parameters (boundaries) x four variants x named callbacks x raw scripts (exhaustive to length 2/3 over '
+    rows = R.run_kind(ctx, 'chains')
+    R.compare(ctx, rows, proj_values, 'C04 chains = composition of the parts (Machine.seq)', nontrivial=lambda c, gd: gd.get('trace', '-') != '-')
+    more_rule = C04_more.parts(ctx)
+    gen = C04_gen.parts(ctx)
+    return dict(search=combine_search(gen['search'], C04_more.search), assumptions=['the translator go/extract/opgen.go is faithful on the fragment it accepts (docs/opgen.md); its output is checked against the hand-written machines by the kernel'],
+                rule=gen['rule_part'] + '; ' + more_rule + '; ' + 'random chains of 2-5 int->int operators (sync/hot, cuts) + ' + 'every catalogue operator x parameters (boundaries) x four variants x named callbacks x raw scripts (exhaustive to length 2/3 over '
                      '{-1,0,2,3} x three endings x illegal suffixes; seeded longer scripts) x {sync, hot}; compared: delivered values, kinds and order; '
                      'non-trivial = script has a value and something was delivered or dropped')
